@@ -94,7 +94,10 @@ func vMakeOperand(form int, tag string, lmin, lmax int, alpha string) vOperand {
 		op.text = "key ^= " + lit(0)
 	case 6: // RANGE [A,B]
 		op.text = "key between " + lit(0) + " and " + lit(1)
-		op.wellFormed = bytes.Compare(op.lits[0], op.lits[1]) < 0
+		// lower > upper is legal text: no key satisfies it (its evaluation is refused), so it
+		// contributes nothing to a disjunction and empties a conjunction; it is part of the
+		// lemma's domain, only the closure side condition is stated for non-inverted operands
+		op.wellFormed = bytes.Compare(op.lits[0], op.lits[1]) <= 0
 	case 7: // RANGE [A,nil]
 		op.text = "key >= " + lit(0)
 	case 8: // RANGE [nil,A]
@@ -135,8 +138,6 @@ func VH_C02_L2(fl, fr, op, lmax, alphaSel int) {
 	}
 	l := vMakeOperand(fl, "a", 0, lmax, alpha)
 	r := vMakeOperand(fr, "b", 0, lmax, alpha)
-	vAssume(l.wellFormed)
-	vAssume(r.wellFormed)
 	opText, opCode := vOpText(op)
 	q := "select * where " + l.text + " " + opText + " " + r.text
 	o := NewOptimizer(q)
@@ -158,8 +159,8 @@ func VH_C02_L2(fl, fr, op, lmax, alphaSel int) {
 		vCover("or")
 	}
 	// closure: a two-sided RANGE built from well-formed operands is not inverted
-	if rp, ok := pc.(*RangeScanPlan); ok && rp.Start != nil && rp.End != nil {
-		vAssert(bytes.Compare(rp.Start, rp.End) < 0, "C02/closure-range-not-inverted")
+	if rp, ok := pc.(*RangeScanPlan); ok && rp.Start != nil && rp.End != nil && l.wellFormed && r.wellFormed {
+		vAssert(bytes.Compare(rp.Start, rp.End) <= 0, "C02/closure-range-not-inverted")
 	}
 }
 
@@ -233,7 +234,6 @@ func vMakeAtom(i int, lmin, lmax int, alpha string) vAtom {
 	case i == 17:
 		t0, a := vLit("a0", lmin, lmax, alpha)
 		t1, b := vLit("a1", lmin, lmax, alpha)
-		vAssume(bytes.Compare(a, b) < 0)
 		return vAtom{"key between " + t0 + " and " + t1, func(k []byte) bool {
 			return vAnd(bytes.Compare(a, k) <= 0, bytes.Compare(k, b) <= 0)
 		}}
